@@ -286,4 +286,89 @@ def covOutcome (k : Nat) (obs : List (List (Option α))) : CovOutcome α :=
 
 end outcomes
 
+/-! ## Sessions (round 4): ONE data object, ONE list of models analysed by several successive calls
+
+  Every evaluation routine receives the caller's objects (`data`, `models`, `theta`).  What could survive a
+  call is what the call writes into them; `Rsa.Gen.C04.evalInputWrites` is the number of statements on the
+  paths of all public routines of `inference/evaluate.py` / `inference/boot_testset.py` (helpers, the noise
+  ceilings, `input_check_model`, the models' `predict` / `predict_rdm` followed) that write in place into an
+  object that may alias one of them — a syntactic may-alias analysis of the current source
+  (`harness/leaves/_C04_writes.py`), regenerated on every run.  `testsetIndexDefaults` counts, apart, the
+  statements of `bootstrap_testset*` that re-create the default `index` descriptor in the caller's object.
+
+  A session threads an explicit state `σ` (the content of the objects) through its steps: a `call` returns a
+  result computed from the state it finds and leaves `eff` of it behind; an `edit` is an in-place operation
+  of the *user* between two calls. -/
+
+section session
+
+/-- one step of a session -/
+inductive SessStep (κ σ : Type) where
+  /-- a call of an evaluation routine with arguments / options / seed / draws `c` -/
+  | call (c : κ)
+  /-- the user changes the objects in place (new numbers in a data row, in a parameter array, in a
+      descriptor) -/
+  | edit (f : σ → σ)
+
+/-- what a call leaves in the caller's objects when `w` statements on its path write in place: with none
+    the objects are untouched; otherwise *something else* `dmg s` (the theorems quantify over every `dmg`) -/
+def callEffectW {σ : Type} (w : Nat) (dmg : σ → σ) (s : σ) : σ :=
+  if w = 0 then s else dmg s
+
+/-- the effect of a call as coded: the write count is read off the source -/
+def callEffect {σ : Type} (dmg : σ → σ) (s : σ) : σ :=
+  callEffectW Rsa.Gen.C04.evalInputWrites dmg s
+
+/-- a session as it runs: call `k` sees the state the steps before it left behind; returns per call its
+    result and the state after it -/
+def runSession {κ σ ρ : Type} (eff : κ → σ → σ) (result : κ → σ → ρ) :
+    List (SessStep κ σ) → σ → List (ρ × σ)
+  | [], _ => []
+  | .call c :: rest, s => (result c s, eff c s) :: runSession eff result rest (eff c s)
+  | .edit f :: rest, s => runSession eff result rest (f s)
+
+/-- the state at the end of a session as it runs -/
+def finalState {κ σ : Type} (eff : κ → σ → σ) : List (SessStep κ σ) → σ → σ
+  | [], s => s
+  | .call c :: rest, s => finalState eff rest (eff c s)
+  | .edit f :: rest, s => finalState eff rest (f s)
+
+/-- the content the user's edits alone produce -/
+def applyEdits {κ σ : Type} : List (SessStep κ σ) → σ → σ
+  | [], s => s
+  | .call _ :: rest, s => applyEdits rest s
+  | .edit f :: rest, s => applyEdits rest (f s)
+
+/-- the specification of a session: every call is the stand-alone call on the content of that moment
+    (the original content with the user's edits so far) and leaves that content as it is -/
+def sessionSpec {κ σ ρ : Type} (result : κ → σ → ρ) : List (SessStep κ σ) → σ → List (ρ × σ)
+  | [], _ => []
+  | .call c :: rest, s => (result c s, s) :: sessionSpec result rest s
+  | .edit f :: rest, s => sessionSpec result rest (f s)
+
+/-- number of calls among the steps -/
+def nCalls {κ σ : Type} : List (SessStep κ σ) → Nat
+  | [] => 0
+  | .call _ :: rest => nCalls rest + 1
+  | .edit _ :: rest => nCalls rest
+
+/-- the state the driver threads: the dissimilarities of the data and of every model -/
+structure SessState (α : Type) where
+  vecs : List (List α)
+  models : List (List (List α))
+deriving Repr
+
+variable {α : Type} [Add α] [Sub α] [Div α] [Zero α] [NatCast α]
+
+/-- a row with its mean removed (what an in-place `rdm_vec -= mean` leaves in the caller's array) -/
+def centreRow (v : List α) : List α :=
+  let mu := v.foldl (· + ·) 0 / (v.length : α)
+  v.map (fun x => x - mu)
+
+/-- the damage the driver applies when the write count is not zero: every row centred in place -/
+def centreDamage (s : SessState α) : SessState α :=
+  { vecs := s.vecs.map centreRow, models := s.models.map (fun m => m.map centreRow) }
+
+end session
+
 end Rsa.Eval
